@@ -53,7 +53,7 @@ def strat(tier):
 
 NEW = b'NEW-CONTENT-' * 400
 OLD = b'old content of the destination\n'
-FOREIGN = b'somebody else\'s part file'
+FOREIGN = b'somebody else\'s part file' * 400        # longer than the new content: a reused part file would show
 RACE = b'created by a racing writer'
 
 
